@@ -223,17 +223,15 @@ func (h *harness) localHistories() {
 			s = subjects[rnd.Intn(len(subjects))]
 			switch x := rnd.Intn(100); {
 			case s.deactivated:
-				op = pick(rnd, "add-service-after-deactivation", "deactivate-again", "none")
-			case x < 35:
-				op = "add-service"
-			case x < 50:
+				op = pick(rnd, "add-service-after-deactivation", "deactivate-again", "create")
+			case x < 20:
+				op = "deactivate"
+			case x < 40:
 				op = "add-verification-method"
 			case x < 65 && len(s.services) > 0:
 				op = "delete-service"
-			case x < 90:
-				op = "deactivate"
 			default:
-				op = "none"
+				op = "add-service"
 			}
 		}
 		a, b := outbound()
